@@ -494,14 +494,27 @@ func TestVerifC18(t *testing.T) {
 		cls(0, "unknown-key-type", "registered", "valid", 16)
 	}
 	n := len(classes)
+	seqLen := 3
+	if r.Thorough() {
+		seqLen = 4
+	}
+	total := 1
+	for i := 0; i < seqLen; i++ {
+		total *= n
+	}
 	r.Set("sequence.classes", n)
-	vrep.Parallel(vrep.Workers(), n*n*n, func(k int) {
+	r.Set("sequence.length", seqLen)
+	vrep.Parallel(vrep.Workers(), total, func(k int) {
 		if r.Expired() {
 			return
 		}
-		seq := []*c18Envelope{classes[k/(n*n)], classes[(k/n)%n], classes[k%n]}
+		seq := make([]*c18Envelope, seqLen)
+		for i, x := seqLen-1, k; i >= 0; i-- {
+			seq[i] = classes[x%n]
+			x /= n
+		}
 		c18RunSeq(r, seq)
-		r.Eval(3)
+		r.Eval(seqLen)
 		r.Distinct(fmt.Sprintf("seq %d", k))
 	})
 
